@@ -234,3 +234,20 @@ class BMSIO(GameIO):
         out.append(first_mismatch("holds", dk["holds"], d1["holds"], lambda p, q: p["column"] == q["column"] and near(p["offset"], q["offset"], ftol(q["offset"]))
                                   and near(p["end"], q["end"], ftol(q["end"])), "later", "first"))
         return [x for x in out if x]
+
+
+def _bms_pipeline_valid(self, doc, c) -> str:
+    lanes = ref_bms.LAYOUTS["BME"]
+    cols = set()
+    for m, ch, d in doc["lines"]:
+        pairs = [d[i:i + 2] for i in range(0, len(d), 2)]
+        if ch in (b"03", b"08") and any(p != b"00" for p in pairs[1:]):
+            return "tempo change off a measure line"
+        if ch in lanes and any(p != b"00" for p in pairs):
+            cols.add(lanes[ch])
+    if not cols or (max(cols) + 1) not in c.get("keys", [max(cols) + 1]):
+        return "key count"
+    return ""
+
+
+BMSIO.valid_pipeline_doc = _bms_pipeline_valid
